@@ -59,7 +59,14 @@ func c17Cfg(groups, binds, stages, locs, oddats, forms string, rnd bool, inv str
 	return c17CfgB(groups, binds, stages, locs, oddats, forms, rnd, inv, c17AllBuiltins)
 }
 
+// c17Orders is the set of attribute orders a generator may write (both, unless a configuration narrows it).
+var c17BothOrders = "{FALSE, TRUE}"
+
 func c17CfgB(groups, binds, stages, locs, oddats, forms string, rnd bool, inv, builtins string) string {
+	return c17CfgO(groups, binds, stages, locs, oddats, forms, rnd, inv, builtins, c17BothOrders)
+}
+
+func c17CfgO(groups, binds, stages, locs, oddats, forms string, rnd bool, inv, builtins, orders string) string {
 	return fmt.Sprintf(`SPECIFICATION Spec
 CONSTANTS
  Budgets <- MCBudgets
@@ -74,10 +81,11 @@ CONSTANTS
  OddAts = %s
  Forms = %s
  WgSizes <- MCWg
+ Orders = %s
  Rand = %s
 INVARIANT %s
 CHECK_DEADLOCK FALSE
-`, groups, binds, stages, builtins, locs, oddats, forms, strings.ToUpper(fmt.Sprint(rnd)), inv)
+`, groups, binds, stages, builtins, locs, oddats, forms, orders, strings.ToUpper(fmt.Sprint(rnd)), inv)
 }
 
 func c17Generators0(c *core.Ctx) []c17Gen {
@@ -97,7 +105,15 @@ func c17Generators(c *core.Ctx) []c17Gen {
 	// exhaustive: every spelling form at every attribute position
 	gs = append(gs, c17Gen{name: "exhaustive: attribute spellings",
 		mc:  c17MC(`{[g |-> 1, h |-> 0, e |-> 1, p |-> 1, m |-> 2, u |-> 1]}`, `{"uniform"}`, `{<<"none","none">>}`, `<<"vec4f">>`, `{<<2, 3, 4, 3>>}`),
-		cfg: c17CfgB("{1}", "{2}", `{"fragment", "compute"}`, "{0}", "{1, 2, 3, 4, 5, 6, 7}", map[bool]string{true: `{"usuffix", "hex", "const"}`, false: c17AllForms}[c.Quick()], false, "GenInv", `{"global_invocation_id"}`), workers: 2})
+		cfg: c17CfgO("{1}", "{2}", `{"fragment", "compute"}`, "{0}", "{1, 2, 3, 4, 5, 6, 7}", map[bool]string{true: `{"usuffix", "hex", "const"}`, false: c17AllForms}[c.Quick()], false, "GenInv", `{"global_invocation_id"}`, map[bool]string{true: "{FALSE}", false: c17BothOrders}[c.Quick()]), workers: 2})
+	// exhaustive: both attribute orders (@interpolate before / after @location, @invariant before / after
+	// @builtin(position), @blend_src before / after @location) on bare parameters, struct members and results
+	gs = append(gs, c17Gen{name: "exhaustive: attribute orders x interpolation",
+		mc:  c17MC(`{[g |-> 0, h |-> 0, e |-> 1, p |-> 1, m |-> 1, u |-> 0]}`, `{"uniform"}`, `{<<"flat","none">>, <<"linear","centroid">>, <<"perspective","sample">>}`, `<<"vec2f">>`, `{<<1, 1, 1, 1>>}`),
+		cfg: c17CfgB("{1}", "{2}", `{"vertex", "fragment"}`, "{1}", "{0}", `{"usuffix"}`, false, "GenInv", `{"position"}`), workers: 2})
+	gs = append(gs, c17Gen{name: "exhaustive: attribute orders of fragment results (dual-source pair)",
+		mc:  c17MC(`{[g |-> 0, h |-> 0, e |-> 1, p |-> 0, m |-> 2, u |-> 0]}`, `{"uniform"}`, `{<<"none","none">>}`, `<<"vec4f">>`, `{<<1, 1, 1, 1>>}`),
+		cfg: c17CfgB("{1}", "{2}", `{"fragment"}`, "{0}", "{0}", `{"usuffix"}`, false, "GenInv", `{"frag_depth"}`), workers: 2})
 	// exhaustive: pairs of resources of every class, sharing / not sharing a slot, used directly or through a helper
 	kinds := `{"uniform", "storage_rw", "tex2d"}`
 	budgets := `{[g |-> 2, h |-> 0, e |-> 2, p |-> 0, m |-> 1, u |-> 1]}`
@@ -106,11 +122,11 @@ func c17Generators(c *core.Ctx) []c17Gen {
 	}
 	gs = append(gs, c17Gen{name: "exhaustive: two resources, two compute entry points",
 		mc:  c17MC(budgets, kinds, `{<<"none","none">>}`, `<<"f32">>`, `{<<1, 1, 1, 1>>}`),
-		cfg: c17Cfg("{0, 1}", "{0}", `{"compute"}`, "{0}", "{0}", `{"usuffix"}`, false, "GenInv"), workers: 4})
+		cfg: c17CfgO("{0, 1}", "{0}", `{"compute"}`, "{0}", "{0}", `{"usuffix"}`, false, "GenInv", c17AllBuiltins, "{FALSE}"), workers: 4})
 	if !c.Quick() {
 		gs = append(gs, c17Gen{name: "exhaustive: two resources, one helper, one compute entry point",
 			mc:  c17MC(`{[g |-> 2, h |-> 1, e |-> 1, p |-> 0, m |-> 1, u |-> 1]}`, kinds, `{<<"none","none">>}`, `<<"f32">>`, `{<<1, 1, 1, 1>>}`),
-			cfg: c17Cfg("{0, 1}", "{0}", `{"compute"}`, "{0}", "{0}", `{"usuffix"}`, false, "GenInv"), workers: 4})
+			cfg: c17CfgO("{0, 1}", "{0}", `{"compute"}`, "{0}", "{0}", `{"usuffix"}`, false, "GenInv", c17AllBuiltins, "{FALSE}"), workers: 4})
 		gs = append(gs, c17Gen{name: "exhaustive: interpolation x type x location",
 			mc:  c17MC(`{[g |-> 0, h |-> 0, e |-> 1, p |-> 1, m |-> 1, u |-> 0]}`, `{"uniform"}`, c17AllInterps, `<<"f32", "vec4u", "vec2f", "i32", "vec4f", "u32", "vec2i">>`, `{<<8, 1, 1, 1>>}`),
 			cfg: c17Cfg("{0}", "{0}", `{"vertex", "fragment"}`, "{0, 1, 2, 5, 9, 15}", "{0}", `{"usuffix"}`, false, "GenInv"), workers: 4})
@@ -342,7 +358,7 @@ func runC17(tier, replay string) int {
 	wg.Add(1)
 	go func() {
 		defer wg.Done()
-		g := gens[min(2, len(gens)-1)]
+		g := gens[min(4, len(gens)-1)]
 		if c17Dev() > 0 {
 			return
 		}
@@ -398,7 +414,7 @@ func runC17(tier, replay string) int {
 			}
 			for _, b := range bs {
 				sh := strings.Join([]string{cs.runs[i].Backend, cs.runs[i].MapKind, b.Rule, c17Abstract(b.Key), c17Abstract(b.Detail), np,
-					c17EpShape(cs.M, b.Key), c17LidShape(cs.M, b.Key)}, "|")
+					c17EpShape(cs.M, b.Key), c17LidShape(cs.M, b.Key), c17Order(cs.M)}, "|")
 				shapeCount[sh]++
 				if shapeCount[sh] <= 3 {
 					need = true
@@ -546,7 +562,7 @@ func runC17(tier, replay string) int {
 					field = strings.SplitN(b.Detail, ":", 2)[0]
 				}
 				desc := map[string]string{"backend": r.Backend, "rule": b.Rule, "kind": kind, "field": field, "mapkind": r.MapKind,
-					"odd": odd, "cause": cause, "key": b.Key, "detail": b.Detail, "epshape": c17EpShape(cs.M, b.Key), "lidshape": c17LidShape(cs.M, b.Key)}
+					"odd": odd, "cause": cause, "key": b.Key, "detail": b.Detail, "epshape": c17EpShape(cs.M, b.Key), "lidshape": c17LidShape(cs.M, b.Key), "order": c17Order(cs.M)}
 				if cause != "attr-form" {
 					desc["odd"] = "plain"
 				}
@@ -608,6 +624,26 @@ func c17EpShape(m *c17x.Module, key string) string {
 		return "no input locations"
 	}
 	return ""
+}
+
+// c17Order tells whether the module writes some attribute list in the reverse order (@binding @group, @interpolate
+// @location, @invariant @builtin ...).
+func c17Order(m *c17x.Module) string {
+	for _, g := range m.Globals {
+		if g.Rev {
+			return "some reversed"
+		}
+	}
+	for _, e := range m.Eps {
+		for _, p := range append(append([]c17x.Param(nil), e.Params...), e.Result) {
+			for _, io := range p.IOs {
+				if io.Rev {
+					return "some reversed"
+				}
+			}
+		}
+	}
+	return "canonical"
 }
 
 // c17LidShape tells how the entry point a verdict key names declares @builtin(local_invocation_id): bare, struct or none.
